@@ -45,7 +45,10 @@ def device_job(scr, out, job, workers, tier):
     out.add_tour(name, d)
     njobs = job.get("split", 2)
     groups = devcheck.split_walks(d["walks"], njobs)
-    batches = [[{"cfg": d["cfg"], "cfgmode": job.get("cfgmode", "literal"), "sub": "", "walks": g}] for g in groups]
+    batches = [[{"cfg": d["cfg"], "cfgmode": "literal", "sub": "", "walks": g}] for g in groups]
+    if job.get("cfgmode") == "toml":
+        for b in batches:
+            with_toml(b)
     for tf, r in devcheck.replay_and_validate(scr, batches, njobs):
         out.add_validation(tf, r)
         os.remove(tf)
@@ -82,7 +85,7 @@ def device_check(pid, tier, replay, prefixes, jobs, drivers=(), rule="", assumpt
 
 
 DEFAULT_CONSTS = {"Variant": "keys", "Mode": "interrupt", "OctB": 1, "SemiB": 0, "ChanB": 1, "TapActions": True,
-                  "ExitLen": 0, "NBase": 4}
+                  "ExitLen": 0, "NBase": 4, "AxSet": set()}
 
 
 def J(name, **kw):
@@ -161,4 +164,55 @@ def c14(pid, tier, replay):
     return device_check(pid, tier, replay, ["C14_"], jobs, drivers=[devdrivers.random_exit], assumptions=ASSUME_DEV)
 
 
-REGISTRY = {"C01": c01, "C02": c02, "C03": c03, "C04": c04, "C13": c13, "C14": c14}
+def with_toml(batches):
+    """Route the configurations through config.ParseData (end to end, as C05 / C08 demand)."""
+    import tomlgen
+    for b in batches:
+        b["cfgmode"] = "toml"
+        b["toml"] = tomlgen.render(b["cfg"], sub=b.get("sub", ""))
+        if b["cfg"]["vel"] == 0:        # the file's meaning: velocity 0 (or absent) is 64
+            b["cfg"]["vel"] = 64
+        for m in b["cfg"]["maps"]:      # what the file can express: one default dead-zone per handler
+            for ad in m["axes"].values():
+                if ad.get("dzsrc") == "global":
+                    ad["dzsrc"] = "handler"
+    return batches
+
+
+def axis_jobs(variant, axsets, tier, **kw):
+    return [J(variant, Variant=variant, AxSet=set(a), OctB=1, ChanB=1, **kw) for a in axsets]
+
+
+def c05(pid, tier, replay):
+    def boundary(seed, t):
+        return with_toml(devdrivers.c05_batches(seed, t))
+    def axes_through_parser(seed, t):
+        return with_toml(devdrivers.c06_batches(seed, "quick")[::3] + devdrivers.c07_batches(seed, "quick")[::2]
+                         + devdrivers.c08_batches(seed, "quick"))
+    jobs = [J("keys", Variant="keys", Mode="interrupt", OctB=1, ChanB=0)] if tier == "quick" else keys_jobs("quick")
+    return device_check(pid, tier, replay, ["C05_"], jobs,
+                        drivers=[boundary, axes_through_parser, devdrivers.random_keys], assumptions=ASSUME_DEV[:2] + [
+                            "configurations are rendered as TOML and parsed by the real config.ParseData"])
+
+
+def c06(pid, tier, replay):
+    jobs = axis_jobs("axis", [["ABS_X"], ["ABS_Y"], ["ABS_Z", "ABS_RZ"]], tier)
+    return device_check(pid, tier, replay, ["C06_"], jobs, drivers=[devdrivers.c06_batches], assumptions=ASSUME_DEV)
+
+
+def c07(pid, tier, replay):
+    jobs = [J("bidi", Variant="bidi", AxSet={"ABS_X", "ABS_Y"}, TapActions=False)]
+    return device_check(pid, tier, replay, ["C07_"], jobs, drivers=[devdrivers.c07_batches], assumptions=ASSUME_DEV)
+
+
+def c08(pid, tier, replay):
+    sets = [["ABS_HAT0X"], ["ABS_Z"], ["ABS_RX"], ["ABS_HAT0X", "ABS_RX"]]
+    jobs = axis_jobs("akey", sets, tier, cfgmode="toml")
+    def drv(seed, t):
+        return with_toml(devdrivers.c08_batches(seed, t))
+    return device_check(pid, tier, replay, ["C08_", "C01_"], jobs, drivers=[drv], assumptions=ASSUME_DEV[:2] + [
+        "configurations are rendered as TOML and parsed by the real config.ParseData (the anchor includes parser.go:261-290)"])
+
+
+REGISTRY = {"C01": c01, "C02": c02, "C03": c03, "C04": c04, "C05": c05, "C06": c06, "C07": c07, "C08": c08,
+            "C13": c13, "C14": c14}
